@@ -263,6 +263,10 @@ func (p *Proxy) handleLoop(conn net.Conn) {
 			log.Debugf("martian: closing connection: %v", conn.RemoteAddr())
 			return
 		}
+		if s.Hijacked() {
+			log.Debugf("martian: connection hijacked, leaving it to the hijacker: %v", conn.RemoteAddr())
+			return
+		}
 	}
 }
 
